@@ -192,6 +192,14 @@ pub fn eval(ctx: &Ctx, op: &str, a: &[&str]) -> Option<String> {
             let o = cli::run_sfs(&ctx.sfs_bin, &args, &parse_hex(a[2]));
             Some(cli_render(&o))
         }
+        // the same with stdin delivering the bytes in two bursts, the first one `k` bytes long (a producer that pauses: the reader's first
+        // `read` returns short, the rest arrives later):  io.cmds cmd args hexbytes k
+        "io.cmds" => {
+            let mut args = vec![a[0].to_string()];
+            args.extend(fmt_args(a[1]));
+            let o = cli::run_sfs_split(&ctx.sfs_bin, &args, &parse_hex(a[2]), a[3].parse().ok()?);
+            Some(cli_render(&o))
+        }
         // the same with the input given as a PATH to a regular file (no stdin):  io.cmdp cmd args hexbytes
         "io.cmdp" => {
             let path = tmp_path(ctx, a, "inp");
@@ -555,6 +563,20 @@ pub fn gen_c07(ctx: &Ctx, rng: &mut Rng, out: &mut Vec<String>) {
             _ => rng.range(0, 999) as f64 / 1000.0 }).collect();
         out.push(format!("io.t2n2t\t{}\t{}\t{}", nats(&shape), bits(&data), p));
     }
+    // (f) every byte value at the two ends of the npy payload, through the real `read::Builder` (format detection included): the file the
+    // writer produces for a spectrum whose last entry has most significant byte `b` and whose first entry has least significant byte `b`
+    // (all finite; the second-highest byte keeps the exponent away from 0x7ff) — a reader that "tidies" its input (trims blanks or line
+    // ends, stops at a NUL or a ^Z) only shows on the handful of values whose bytes look like such characters
+    for b in 0u64..256 {
+        let last = f64::from_bits(b << 56 | 0x35 << 48 | 0x4a3b_2c1d_0e0f);
+        let first = f64::from_bits(0x3ff4_5566_7788_9900 | b);
+        for data in [vec![first, 2.5, last], vec![last]] {
+            let mut buf = Vec::new();
+            if write::Builder::default().set_format(Format::Npy).write(&mut buf, &Scs::new(data.clone(), vec![data.len()]).unwrap()).is_ok() {
+                out.push(format!("io.specread\t{}", hex(&buf)));
+            }
+        }
+    }
 }
 
 /// shapes whose header dictionary length covers every residue modulo 64 (axes of length 1 plus one of 1 / 10 / 100)
@@ -768,9 +790,13 @@ pub fn gen_c16(ctx: &Ctx, rng: &mut Rng, out: &mut Vec<String>) {
                     out.push(format!("io.specread\t{}", hex(&g)));
                     let (c, a) = cmds[(e + fi) % 3];
                     out.push(format!("io.cmd\t{c}\t{a}\t{}", hex(&g))); out.push(format!("io.cmdp\t{c}\t{a}\t{}", hex(&g))); out.push(format!("io.cmdp\tview\t-O npy\t{}", hex(&g)));
+                    // … and arriving in two bursts that split exactly where the valid file ends (a short read is not the end of the input)
+                    if fi < 4 || t { out.push(format!("io.cmds\t{c}\t{a}\t{}\t{}", hex(&g), f.len())); }
                 }
             }
         }
+        // a cut file whose first burst ends inside the magic string / the header / a value
+        if fi < 3 || t { for k in [3usize, 9, 131] { if f.len() > k + 9 { let (c, a) = cmds[(k + fi) % 3]; out.push(format!("io.cmds\t{c}\t{a}\t{}\t{k}", hex(&f[..f.len() - 3]))); } } }
     }
     // files the reader refuses for what their header SAYS (Fortran order; element types it does not read) although they are otherwise
     // well-formed: whole, cut at every item boundary, with whole items appended — refused in every form, never read as a spectrum
@@ -862,6 +888,13 @@ pub fn gen_c16(ctx: &Ctx, rng: &mut Rng, out: &mut Vec<String>) {
                 let (c, a) = cmds[(vi / 4 + fi) % 3];
                 out.push(format!("io.cmd\t{c}\t{a}\t{}", hex(v.as_bytes())));
             }
+        }
+        // a valid text spectrum followed by more tokens / a second spectrum, the addition arriving in a second burst (and a first burst
+        // that ends inside the header line)
+        if fi < 6 || t {
+            let (c, a) = cmds[fi % 3];
+            for extra in ["7\n", " 1 2\n", base.as_str()] { out.push(format!("io.cmds\t{c}\t{a}\t{}\t{}", hex(format!("{base}{extra}").as_bytes()), base.len())); }
+            out.push(format!("io.cmds\t{c}\t{a}\t{}\t{}", hex(base.as_bytes()), 3 + fi % 4));
         }
     }
 }
